@@ -33,11 +33,23 @@ theorem any_range_head (h : Nat → Bool) (k n : Nat) (hk : h k = true) :
   rw [List.any_eq_true]
   exact ⟨0, List.mem_range.mpr (by omega), by simpa using hk⟩
 
+theorem any_congr' {α} {l : List α} {g h : α → Bool} (heq : ∀ x ∈ l, g x = h x) : l.any g = l.any h := by
+  induction l with
+  | nil => rfl
+  | cons a as ih =>
+    simp only [List.any_cons]
+    rw [heq a (by simp), ih (fun x hx => heq x (by simp [hx]))]
+
 theorem sum_map_one_add {α} (g : α → Nat) (l : List α) :
     (l.map fun r => 1 + g r).sum = l.length + (l.map g).sum := by
   induction l with
   | nil => rfl
   | cons a as ih => simp only [List.map_cons, List.sum_cons, List.length_cons, ih]; omega
+
+theorem sum_map_zero {α} (l : List α) : (l.map fun _ => 0).sum = 0 := by
+  induction l with
+  | nil => rfl
+  | cons a as ih => simp only [List.map_cons, List.sum_cons, ih]
 
 theorem sum_map_le {α} (g h : α → Nat) (l : List α) (hle : ∀ x ∈ l, g x ≤ h x) :
     (l.map g).sum ≤ (l.map h).sum := by
@@ -74,6 +86,10 @@ theorem visitedFrom_self (m : Nat) (c : Cfg) (f : Faults) (above : List GiEntry)
   have := List.mem_range.mp hi
   simp only [Bool.or_eq_true, decide_eq_true_eq]
   left; omega
+
+theorem visitedFrom_mk (c : Cfg) (f : Faults) (above : List GiEntry) (p : Path) (sh : NodeShape) (anc : List DirInfo) :
+    visitedFrom anc.length c f above ⟨p, sh, anc⟩ = true :=
+  visitedFrom_self _ _ _ _ _ (Nat.le_refl _)
 
 /-- peel one directory off the chain -/
 theorem visitedFrom_peel (m : Nat) (c : Cfg) (f : Faults) (above : List GiEntry) (r : NodeRec)
@@ -216,6 +232,27 @@ theorem ctx_child (c : Cfg) (f : Faults) (above G' : List GiEntry) (anc : List D
     c.useGitignore = true → G' = above ++ (anc ++ [(⟨p, gi, k⟩ : DirInfo)]).map (giEntryOf f) := by
   intro hu; rw [hg hu]; simp [giEntryOf_idx f p gi k 0]
 
+theorem toldFault_file (c : Cfg) (f : Faults) (above : List GiEntry) (p : Path) (k : Kind) (sz : Nat) (anc : List DirInfo) :
+    toldFault c f above ⟨p, .file k sz, anc⟩ =
+      (!((k = .special) || (k = .symlink && !c.readSymlinks)) &&
+      !(c.useGitignore && stackMatch c (above ++ anc.map (giEntryOf f)) (tokens p) false) &&
+      (List.range c.nExt).any (fun e => c.required e p) && decide (c.maxFileSize > 0) && f.statFail p) := rfl
+
+theorem toldFault_dir (c : Cfg) (f : Faults) (above : List GiEntry) (p : Path) (gi : Option PatSet) (n : Nat) (anc : List DirInfo) :
+    toldFault c f above ⟨p, .dir gi n, anc⟩ =
+      (!excludedDir c (above ++ anc.map (giEntryOf f)) p &&
+      ((c.useGitignore && f.openFail (p ++ [".gitignore"])) || f.openFail p || listingFails f p n)) := rfl
+
+theorem secondCalls_file (c : Cfg) (f : Faults) (above : List GiEntry) (p : Path) (k : Kind) (sz : Nat) (anc : List DirInfo) :
+    secondCalls c f above ⟨p, .file k sz, anc⟩ = 0 := rfl
+
+theorem secondCalls_dir (c : Cfg) (f : Faults) (above : List GiEntry) (p : Path) (gi : Option PatSet) (n : Nat) (anc : List DirInfo) :
+    secondCalls c f above ⟨p, .dir gi n, anc⟩ =
+      (if excludedDir c (above ++ anc.map (giEntryOf f)) p then 0
+       else if f.openFail p then 1
+       else if listingFails f p n then 1
+       else 0) := rfl
+
 /-! ### 1. `traversalFault` is "some visited node is told a fault" -/
 
 mutual
@@ -225,13 +262,13 @@ theorem traversalFault_anchor (c : Cfg) (f : Faults) (above : List GiEntry) (p :
         (allNodes p anc n).any (fun r => visitedFrom anc.length c f above r && toldFault c f above r)
   | .file k sz, G, hg => by
     simp only [traversalFault, allNodes, List.any_cons, List.any_nil, Bool.or_false]
-    rw [visitedFrom_self _ _ _ _ _ (Nat.le_refl _)]
-    simp only [toldFault, Bool.true_and]
+    rw [visitedFrom_mk]
+    simp only [toldFault_file, Bool.true_and]
     rw [gi_guard_congr c G _ (tokens p) false hg]
   | .dir gi es, G, hg => by
     simp only [traversalFault, allNodes, List.any_cons]
-    rw [visitedFrom_self _ _ _ _ _ (Nat.le_refl _)]
-    simp only [toldFault, Bool.true_and]
+    rw [visitedFrom_mk]
+    simp only [toldFault_dir, Bool.true_and]
     rw [excluded_congr c G _ p hg]
     by_cases hex : excludedDir c (above ++ anc.map (giEntryOf f)) p = true
     · -- an excluded directory: nothing is told here, nothing below is visited
@@ -282,12 +319,325 @@ theorem traversalFaultL_anchor (c : Cfg) (f : Faults) (above : List GiEntry) (p 
             (fun r => visitedFrom (anc ++ [(⟨p, gi, k⟩ : DirInfo)]).length c f above r && toldFault c f above r)
           = (allNodes (p ++ [name]) (anc ++ [⟨p, gi, k⟩]) n).any
             (fun r => visitedFrom anc.length c f above r && toldFault c f above r) := by
-        apply List.any_congr_mem
+        apply any_congr'
         intro r hr
         rw [visitedFrom_child c f above anc p gi k _ n r hr, passes_true c f above anc p k hexf hop hread']
         simp
       rw [hfirst]
-      simp only [hrk', Bool.false_or, Bool.or_assoc, Bool.or_left_comm]
+      simp only [hrk', Bool.false_or, Bool.or_left_comm]
 end
+
+/-- the anchor from the start of a walk: `traversalFault` is exactly "some node the walk gets to has a
+failure `handleFile` is told about" -/
+theorem traversalFault_anchor0 (c : Cfg) (f : Faults) (above : List GiEntry) (p : Path) (n : Node) :
+    traversalFault c f above p n = toldFaultFrom c f above p n := by
+  rw [traversalFault_anchor c f above p [] n above (by intro _; simp)]
+  unfold toldFaultFrom
+  simp only [List.length_nil, visitedFrom_zero]
+
+theorem traversalFaultRequested_anchor (c : Cfg) (f : Faults) (root : Node) (p : Path) :
+    traversalFaultRequested c f root p = toldFaultRequested c f root p := by
+  unfold traversalFaultRequested toldFaultRequested
+  by_cases hs : f.statFail p = true
+  · simp only [hs, if_true]
+  · simp only [hs, Bool.false_eq_true, if_false]
+    cases hl : lookup root p with
+    | none => rfl
+    | some n =>
+      cases n with
+      | file k sz =>
+        simp only []
+        rw [traversalFault_anchor0]
+        simp only [toldFaultFrom, allNodes, List.any_cons, List.any_nil, Bool.or_false, visitedRec,
+          List.length_nil, List.range_zero, List.all_nil, Bool.true_and]
+      | dir gi es =>
+        simp only []
+        by_cases hu : c.useGitignore = true
+        · simp only [hu, if_true, Bool.true_and]
+          rw [traversalFault_anchor0]
+        · simp only [hu, Bool.false_eq_true, if_false, Bool.false_and, Bool.false_or]
+          rw [traversalFault_anchor0]
+
+theorem traversalFaultRoot_anchor (c : Cfg) (f : Faults) (root : Node) :
+    traversalFaultRoot c f root = toldFaultRoot c f root := by
+  unfold traversalFaultRoot toldFaultRoot
+  rw [traversalFault_anchor0]
+  rw [show traversalFaultRequested c f root = toldFaultRequested c f root from
+    funext (traversalFaultRequested_anchor c f root)]
+
+/-- C09's fault predicate is the declarative one -/
+theorem traversalFaultScan_anchor (c : Cfg) (roots : List (Node × Faults)) :
+    traversalFaultScan c roots = toldFaultScan c roots := by
+  unfold traversalFaultScan toldFaultScan
+  congr 1
+  funext rf
+  exact traversalFaultRoot_anchor c rf.2 rf.1
+
+/-! ### 2. `visits` is "one call per visited node, plus its second calls" -/
+
+/-- the summand -/
+def callsOf (c : Cfg) (f : Faults) (above : List GiEntry) (r : NodeRec) : Nat := 1 + secondCalls c f above r
+
+mutual
+theorem visits_anchor (c : Cfg) (f : Faults) (above : List GiEntry) (p : Path) (anc : List DirInfo) :
+    ∀ (n : Node) (G : List GiEntry), (c.useGitignore = true → G = above ++ anc.map (giEntryOf f)) →
+      visits c f G p n =
+        (((allNodes p anc n).filter (visitedFrom anc.length c f above)).map
+          (fun r => 1 + secondCalls c f above r)).sum
+  | .file k sz, G, _ => by
+    simp only [visits, allNodes]
+    rw [List.filter_cons_of_pos (visitedFrom_mk c f above p _ anc)]
+    simp [secondCalls_file]
+  | .dir gi es, G, hg => by
+    simp only [visits, allNodes]
+    rw [List.filter_cons_of_pos (visitedFrom_mk c f above p _ anc)]
+    simp only [List.map_cons, List.sum_cons, secondCalls_dir]
+    rw [excluded_congr c G _ p hg]
+    by_cases hex : excludedDir c (above ++ anc.map (giEntryOf f)) p = true
+    · simp only [hex, if_true]
+      rw [List.filter_eq_nil_iff.mpr (fun r hr => by
+        rw [not_visited_below c f above anc p gi es 0 (fun j _ => by unfold passes; rw [hex]; simp) r hr]
+        simp)]
+      simp
+    · have hexf : excludedDir c (above ++ anc.map (giEntryOf f)) p = false := by simpa using hex
+      simp only [hexf, Bool.false_eq_true, if_false]
+      by_cases hop : f.openFail p = true
+      · simp only [hop, if_true]
+        rw [List.filter_eq_nil_iff.mpr (fun r hr => by
+          rw [not_visited_below c f above anc p gi es 0 (fun j _ => by unfold passes; rw [hop]; simp) r hr]
+          simp)]
+        simp
+      · have hopf : f.openFail p = false := by simpa using hop
+        simp only [hopf, Bool.false_eq_true, if_false]
+        rw [visitsL_anchor c f above p gi anc es 0 _ (ctx_push c f above G anc p gi hg) hexf hopf
+          (by intro j hj; omega)]
+        simp only [listingFails, Nat.zero_add]
+        by_cases hb : (List.range (es.length + 1)).any (fun j => f.readEntryFail p j) = true
+        · simp only [hb, if_true, Bool.toNat_true]; omega
+        · have hb' : (List.range (es.length + 1)).any (fun j => f.readEntryFail p j) = false := by simpa using hb
+          simp only [hb', Bool.false_eq_true, if_false, Bool.toNat_false]; omega
+theorem visitsL_anchor (c : Cfg) (f : Faults) (above : List GiEntry) (p : Path) (gi : Option PatSet)
+    (anc : List DirInfo) :
+    ∀ (es : List (String × Node)) (k : Nat) (G' : List GiEntry),
+      (c.useGitignore = true → G' = above ++ anc.map (giEntryOf f) ++ [giEntryOf f ⟨p, gi, 0⟩]) →
+      excludedDir c (above ++ anc.map (giEntryOf f)) p = false →
+      f.openFail p = false →
+      (∀ j, j < k → f.readEntryFail p j = false) →
+      visitsL c f G' p es k =
+        ((List.range (es.length + 1)).any (fun j => f.readEntryFail p (k + j))).toNat +
+        (((allNodesList p gi anc es k).filter (visitedFrom anc.length c f above)).map
+          (fun r => 1 + secondCalls c f above r)).sum
+  | [], k, G', _, _, _, _ => by
+    simp only [visitsL, allNodesList, List.length_nil, Nat.zero_add, List.filter_nil, List.map_nil,
+      List.sum_nil, Nat.add_zero]
+    rw [any_range_one (f.readEntryFail p) k]
+    cases f.readEntryFail p k <;> rfl
+  | (name, n) :: rest, k, G', hg, hexf, hop, hread => by
+    simp only [visitsL, allNodesList, List.length_cons]
+    by_cases hrk : f.readEntryFail p k = true
+    · -- the failing read is reported by one call and ends the listing: nothing from entry k on is visited
+      rw [any_range_head (f.readEntryFail p) k _ hrk]
+      simp only [hrk, if_true]
+      have hnil : (allNodes (p ++ [name]) (anc ++ [⟨p, gi, k⟩]) n ++ allNodesList p gi anc rest (k+1)).filter
+          (visitedFrom anc.length c f above) = [] := by
+        rw [List.filter_eq_nil_iff]
+        intro r hr
+        have := not_visited_below c f above anc p gi ((name, n) :: rest) k
+          (fun j hj => passes_false_of_read c f above anc p k j hj hrk) r (by simpa [allNodesList] using hr)
+        simp [this]
+      rw [hnil]; simp
+    · have hrk' : f.readEntryFail p k = false := by simpa using hrk
+      have hread' : ∀ j, j < k + 1 → f.readEntryFail p j = false := by
+        intro j hj
+        by_cases hjk : j = k
+        · subst hjk; exact hrk'
+        · exact hread j (by omega)
+      simp only [hrk', Bool.false_eq_true, if_false]
+      rw [visits_anchor c f above (p ++ [name]) (anc ++ [⟨p, gi, k⟩]) n G' (ctx_child c f above G' anc p gi k hg),
+        visitsL_anchor c f above p gi anc rest (k+1) G' hg hexf hop hread',
+        any_range_shift (f.readEntryFail p) k rest.length]
+      have hfirst : (allNodes (p ++ [name]) (anc ++ [⟨p, gi, k⟩]) n).filter
+            (visitedFrom (anc ++ [(⟨p, gi, k⟩ : DirInfo)]).length c f above)
+          = (allNodes (p ++ [name]) (anc ++ [⟨p, gi, k⟩]) n).filter (visitedFrom anc.length c f above) := by
+        apply List.filter_congr
+        intro r hr
+        rw [visitedFrom_child c f above anc p gi k _ n r hr, passes_true c f above anc p k hexf hop hread']
+        simp
+      rw [hfirst]
+      simp only [hrk', Bool.false_or, List.filter_append, List.map_append, List.sum_append]
+      omega
+end
+
+/-- the anchor from the start of a walk: `visits` is one `handleFile` call per node the walk gets to, plus
+the second calls -/
+theorem visits_anchor0 (c : Cfg) (f : Faults) (above : List GiEntry) (p : Path) (n : Node) :
+    visits c f above p n = callsFrom c f above p n := by
+  rw [visits_anchor c f above p [] n above (by intro _; simp)]
+  unfold callsFrom
+  simp only [List.length_nil, visitedFrom_zero]
+
+/-- extra calls of a walk: the second calls of the nodes it gets to -/
+def secondCallsFrom (c : Cfg) (f : Faults) (above : List GiEntry) (p : Path) (n : Node) : Nat :=
+  (((allNodes p [] n).filter (visitedRec c f above)).map (secondCalls c f above)).sum
+
+/-- `handleFile` calls = inodes processed + second calls -/
+theorem visits_eq_reachable_add (c : Cfg) (f : Faults) (above : List GiEntry) (p : Path) (n : Node) :
+    visits c f above p n = reachableInodes c f above p n + secondCallsFrom c f above p n := by
+  rw [visits_anchor0]
+  unfold callsFrom reachableInodes secondCallsFrom
+  exact sum_map_one_add _ _
+
+/-! ### 3. inodes ≤ calls, with equality when nothing fails -/
+
+theorem reachableInodes_le_visits (c : Cfg) (f : Faults) (above : List GiEntry) (p : Path) (n : Node) :
+    reachableInodes c f above p n ≤ visits c f above p n := by
+  rw [visits_eq_reachable_add]; omega
+
+theorem reachableInodesRequested_le (c : Cfg) (f : Faults) (root : Node) (p : Path) :
+    reachableInodesRequested c f root p ≤ visitsRequested c f root p := by
+  unfold reachableInodesRequested visitsRequested
+  by_cases hs : f.statFail p = true
+  · simp only [hs, if_true]; omega
+  · simp only [hs, Bool.false_eq_true, if_false]
+    cases hl : lookup root p with
+    | none => simp
+    | some n =>
+      cases n with
+      | file k sz => simp
+      | dir gi es => exact reachableInodes_le_visits _ _ _ _ _
+
+theorem reachableInodesRoot_le (c : Cfg) (f : Faults) (root : Node) :
+    reachableInodesRoot c f root ≤ visitsRoot c f root := by
+  unfold reachableInodesRoot visitsRoot
+  by_cases hp : c.paths.isEmpty = true
+  · simp only [hp, if_true]
+    by_cases hs : f.statFail [] = true
+    · simp only [hs, if_true]; omega
+    · simp only [hs, Bool.false_eq_true, if_false]
+      exact reachableInodes_le_visits _ _ _ _ _
+  · simp only [hp, Bool.false_eq_true, if_false]
+    exact sum_map_le _ _ _ (fun p _ => reachableInodesRequested_le c f root p)
+
+/-- the inodes a scan processes never exceed its `handleFile` calls -/
+theorem reachableInodesScan_le_visitsScan (c : Cfg) (roots : List (Node × Faults)) :
+    reachableInodesScan c roots ≤ visitsScan c roots := by
+  unfold reachableInodesScan visitsScan
+  exact sum_map_le _ _ _ (fun rf _ => reachableInodesRoot_le c rf.2 rf.1)
+
+/-- what "nothing fails" is really needed for inside a walk: directories open and list -/
+def NoWalkFaults (f : Faults) : Prop :=
+  (∀ p, f.openFail p = false) ∧ (∀ p k, f.readEntryFail p k = false)
+
+theorem NoFaultsAt.walk {f : Faults} (h : NoFaultsAt f) : NoWalkFaults f := ⟨h.1, h.2.2⟩
+
+theorem secondCalls_noFaults (c : Cfg) (f : Faults) (hf : NoWalkFaults f) (above : List GiEntry) (r : NodeRec) :
+    secondCalls c f above r = 0 := by
+  unfold secondCalls
+  cases r.shape with
+  | file k sz => rfl
+  | dir gi n =>
+    have : listingFails f r.path n = false := by
+      unfold listingFails
+      rw [List.any_eq_false]
+      intro k _; simp [hf.2 r.path k]
+    simp only [hf.1 r.path, this]
+    split <;> rfl
+
+theorem visits_eq_reachable (c : Cfg) (f : Faults) (hf : NoWalkFaults f) (above : List GiEntry) (p : Path) (n : Node) :
+    visits c f above p n = reachableInodes c f above p n := by
+  rw [visits_eq_reachable_add]
+  unfold secondCallsFrom
+  rw [sum_map_congr (secondCalls c f above) (fun _ => 0) _ (fun r _ => secondCalls_noFaults c f hf above r)]
+  rw [sum_map_zero]; rfl
+
+theorem visitsRequested_eq_reachable (c : Cfg) (f : Faults) (hf : NoWalkFaults f) (root : Node) (p : Path)
+    (hs : f.statFail p = false) (hl : lookup root p ≠ none) :
+    visitsRequested c f root p = reachableInodesRequested c f root p := by
+  unfold reachableInodesRequested visitsRequested
+  simp only [hs, Bool.false_eq_true, if_false]
+  cases hl' : lookup root p with
+  | none => exact absurd hl' hl
+  | some n =>
+    cases n with
+    | file k sz => rfl
+    | dir gi es => exact visits_eq_reachable c f hf _ _ _
+
+/-- weakest convenient form per root: directories open and list, and every START path can be stat'ed and exists -/
+theorem visitsRoot_eq_reachable (c : Cfg) (f : Faults) (hf : NoWalkFaults f) (root : Node)
+    (hstart : if c.paths.isEmpty then f.statFail [] = false
+              else ∀ p ∈ c.paths, f.statFail p = false ∧ lookup root p ≠ none) :
+    visitsRoot c f root = reachableInodesRoot c f root := by
+  unfold reachableInodesRoot visitsRoot
+  by_cases hp : c.paths.isEmpty = true
+  · simp only [hp, if_true] at hstart ⊢
+    simp only [hstart, Bool.false_eq_true, if_false]
+    exact visits_eq_reachable c f hf _ _ _
+  · simp only [hp, Bool.false_eq_true, if_false] at hstart ⊢
+    exact sum_map_congr _ _ _ (fun p hpm => visitsRequested_eq_reachable c f hf root p (hstart p hpm).1 (hstart p hpm).2)
+
+theorem visitsScan_eq_reachable' (c : Cfg) (roots : List (Node × Faults))
+    (h : ∀ rf ∈ roots, NoWalkFaults rf.2 ∧
+      (if c.paths.isEmpty then rf.2.statFail [] = false
+       else ∀ p ∈ c.paths, rf.2.statFail p = false ∧ lookup rf.1 p ≠ none)) :
+    visitsScan c roots = reachableInodesScan c roots := by
+  unfold reachableInodesScan visitsScan
+  exact sum_map_congr _ _ _ (fun rf hrf => visitsRoot_eq_reachable c rf.2 (h rf hrf).1 rf.1 (h rf hrf).2)
+
+/-- when no filesystem operation fails and every requested path exists, `handleFile` calls = inodes -/
+theorem visitsScan_eq_reachable (c : Cfg) (roots : List (Node × Faults))
+    (h : ∀ rf ∈ roots, NoFaultsAt rf.2 ∧ ∀ p ∈ c.paths, lookup rf.1 p ≠ none) :
+    visitsScan c roots = reachableInodesScan c roots := by
+  apply visitsScan_eq_reachable'
+  intro rf hrf
+  obtain ⟨hn, hl⟩ := h rf hrf
+  refine ⟨hn.walk, ?_⟩
+  split
+  · exact hn.2.1 []
+  · exact fun p hp => ⟨hn.2.1 p, hl p hp⟩
+
+/-! scan-level form of 2 -/
+
+def callsRequested (c : Cfg) (f : Faults) (root : Node) (p : Path) : Nat :=
+  if f.statFail p then 1 else
+  match lookup root p with
+  | none => 1
+  | some (.dir gi es) => callsFrom c f (if c.useGitignore then (parentGis f root p).1 else []) p (.dir gi es)
+  | some (.file _ _) => 1
+
+def callsRoot (c : Cfg) (f : Faults) (root : Node) : Nat :=
+  if c.paths.isEmpty then (if f.statFail [] then 1 else callsFrom c f [] [] root)
+  else (c.paths.map (callsRequested c f root)).sum
+
+/-- `handleFile` calls of a scan, declaratively: per start path one call for a path that cannot be
+stat'ed / does not exist / is a file, otherwise one per visited node plus its second calls -/
+def callsScan (c : Cfg) (roots : List (Node × Faults)) : Nat :=
+  (roots.map fun (r, f) => callsRoot c f r).sum
+
+theorem visitsRequested_anchor (c : Cfg) (f : Faults) (root : Node) (p : Path) :
+    visitsRequested c f root p = callsRequested c f root p := by
+  unfold visitsRequested callsRequested
+  split
+  · rfl
+  · cases hl : lookup root p with
+    | none => rfl
+    | some n =>
+      cases n with
+      | file k sz => rfl
+      | dir gi es => exact visits_anchor0 _ _ _ _ _
+
+theorem visitsRoot_anchor (c : Cfg) (f : Faults) (root : Node) :
+    visitsRoot c f root = callsRoot c f root := by
+  unfold visitsRoot callsRoot
+  rw [visits_anchor0]
+  rw [show visitsRequested c f root = callsRequested c f root from funext (visitsRequested_anchor c f root)]
+
+/-- C10's count is the declarative one -/
+theorem visitsScan_anchor (c : Cfg) (roots : List (Node × Faults)) :
+    visitsScan c roots = callsScan c roots := by
+  unfold visitsScan callsScan
+  congr 1
+  congr 1
+  funext rf
+  exact visitsRoot_anchor c rf.2 rf.1
 
 end Scalibr.Walk
